@@ -233,6 +233,8 @@ def doInstall (s : HSt) (hdr obs : List String) : HSt := Id.run do
     | _, _ => pure ()
     -- C12: every munmap targets something the library mapped itself
     if evs.any (fun e => match e with | Ev.U _ _ o => !o | _ => false) then s := s.fail "c12.foreign-munmap"
+  -- C03: a restore must not ask the kernel to unmap code the library never allocated
+  if foreignUnmapHitsCode s.arenas evs then s := s.fail "c03.unmapped-foreign-code"
     if foreignUnmapHitsCode s.arenas evs then s := s.fail "c03.unmapped-foreign-code"
     -- allocator: oracle answers = what the kernel returned
     let answers : List (Option Nat) := evs.filterMap fun e => match e with | Ev.M _ _ r => some r | _ => none
